@@ -41,14 +41,11 @@ Definition ctor_geometry (rot tr vol : pyval) : result unit :=
   if negb (is_arr tr [3]%nat) then Err EValue else
   if negb (is_arr vol [3]%nat) then Err EValue else Ok tt.
 
-(* CalibrationDataBlock (volume size, rotation, translation, camera map): .shape is read without an
-   isinstance test (AttributeError for non-arrays); the map must be a rank-1 array *)
+(* CalibrationDataBlock (volume size, rotation, translation, camera map): isinstance + shape tests, ValueError;
+   the map must be a rank-1 array *)
 Definition ctor_calibration (vol rot tr map : pyval) : result unit :=
-  if negb (has_shape_attr vol) then Err EAttr else
   if negb (is_arr vol [3]%nat) then Err EValue else
-  if negb (has_shape_attr rot) then Err EAttr else
   if negb (is_arr rot [3; 3]%nat) then Err EValue else
-  if negb (has_shape_attr tr) then Err EAttr else
   if negb (is_arr tr [3]%nat) then Err EValue else
   match map with
   | PArr [_] => Ok tt
